@@ -68,7 +68,7 @@ CLAIMED = {
     'C14': ('Theorems: copy/union/intersection/take/transposed/inverted/rebuild refine the plain model (cell-wise or/and, conflicts exactly on a shared '
             'differing cell, take selection/unknown names, involutions, rebuild round trip); frame theorems: a derive step and any later history change a '
             'handle only through an in-place operation addressed to it. Aliasing in the code is exposed by observing every live handle after every step. '
-            'Context(*d) is accepted iff the name lists are non-empty and disjoint, Context <-> Definition round trips, contexts equal iff triples equal (on the model of Context.__init__ of C19). Agreement of shape, fill_ratio, table string, crc32: harness glue (computed independently from the triple).',
+            'Context(*d) is accepted iff the name lists are non-empty and disjoint, Context <-> Definition round trips, contexts equal iff triples equal (on the model of Context.__init__ of C19). shape and fill_ratio are modelled (Model/Stats.v): the fraction is in lowest terms, counts exactly the true cells (through the invariant of the Definition machine) and agrees between a definition and its context in both directions, invariant under transposition and permutation; table string and crc32 agreement: harness glue (computed independently from the triple).',
             'proof (refinement) + differential correspondence', '7 C14'),
     'C15': ('Theorems on the specification (which C01-C07 tie to the code): row/column permutation maps concepts, covers, joins, meets and the column '
             'combination patterns through the bijection; transposition swaps extent/intent, reverses covers, exchanges join and meet; duplicated row '
